@@ -86,8 +86,12 @@ def gmd(U: np.ndarray,
     perm = np.r_[0:p]  # perm (i) = location in d of i-th largest entry
     invperm = np.r_[0:p]  # maps diagonal entries to perm
 
-    # Geometric Mean of the 'p' largest singular values
-    sigma_bar = np.prod(S[0:p])**(1. / p)
+    # Geometric Mean of the 'p' largest singular values. It is computed from
+    # the mean of the logarithms: the plain product overflows to inf (or
+    # underflows to zero) for a few hundred singular values, or for a few
+    # tens of them in very large / very small units, and Q, R and P would be
+    # filled with nan values.
+    sigma_bar = math.exp(np.mean(np.log(S[0:p])).item())
 
     for k in range(p - 1):
         flag = 0
